@@ -5,7 +5,7 @@ Correspondence: real PIT / MPS / SuperNet models with frozen maskers (input/outp
 Conv1d) and shared components (residual add, depthwise chain, shared quantizers).  Breadth-first exploration of
 ALL operation sequences up to length 4 on the abstract state (requires_grad of every tensor, the two parameter
 groups, switches, per-layer discrete_cost, sampler function / temperature / hard of every quantizer / combiner),
-each transition executed on a fresh deep copy of the real object in the source state; the resulting abstract
+each transition executed on the real object reset to the source state (generic snapshot / restore); the resulting abstract
 state and the `.grad` pattern of forward + (loss+cost).backward() are compared with `step` evaluated in Coq along
 the same path.  Oracle: the sentences of the property evaluated directly on the implementation.
 """
@@ -156,9 +156,11 @@ def run(ctx):
                 '(MPS: temperature 0.5/4, hard, gumbel, disable_sampling; SuperNet: temperature, hard), forward+backward of loss+cost}, deduplicated on the abstract state; '
                 'every transition from every distinct abstract state is executed on the real object reset to that state; '
                 'a case = one transition; non-trivial = the abstract state or the grad pattern is not the initial one; distinct = (prototype, source state, op)' % (protos, MAXLEN))
+    t_ex = time.time()
     with ProcessPoolExecutor(min(len(protos), NPROC)) as ex:
         res = list(ex.map(explore, [(p, not ctx.quick, CAP) for p in protos]))
 
+    ctx.extra['wall_explore_s'] = round(time.time() - t_ex, 1)
     # ---- cases + oracle
     allfails = []
     for r in res:
@@ -185,6 +187,7 @@ def run(ctx):
     # ---- model evaluation in Coq
     mism = []
     model_ok = built
+    t_coq = time.time()
     if built:
         try:
             defs = ''
@@ -233,6 +236,7 @@ def run(ctx):
                                                     'correspondence': 'Model/Train.v vs the real object'},
                           'model and implementation disagree on %d transitions (first: %s, prototype %s, after %s, op %s: %s) but the property oracle found no failing input'
                           % (len(mism), what, proto, [M.op_name(o) for o in path], M.op_name(op), d), no_input=True)
+    ctx.extra['wall_coq_eval_s'] = round(time.time() - t_coq, 1)
     ctx.extra['model_impl_mismatches'] = len(mism)
     if mism:
         ctx.notes.append('first mismatches: %r' % (mism[:3],))
